@@ -764,3 +764,1845 @@ def rule_nonearg(ctx, floor=8):
                        and none_ternary_problem(ast.parse("def f(s, v, c):\n    return '(IsNone(%s) ? (%s) : (%s))' % (s, c, v)").body[0], 'v') is not None,
                        'stored integer 0 is seen as falsy while the static default is "0"; a swapped conditional template is rejected')
     return r
+
+
+# ------------------------------------------------------------------------------------------------------------ C13-POPIX
+# list.pop(i) / obj.pop(i) with a C integer index: the container helpers of Optimize.c that take the *user's* index as a Py_ssize_t
+# (no wraparound / boundscheck flag parameters: Python semantics always) are walked with the index-status engine of C15
+# (raw / length-added / bounds-tested; path enumeration per preprocessor configuration).  Obligations, all four necessary for
+# `L.pop(i)` == list.pop for every i:
+#   unchecked  an item is only touched through a raw accessor after __Pyx_is_valid_index (or an inline range test) succeeded on that index
+#   nowrap     a raw / non-wrapping accessor never gets an index that may still be negative
+#   reject     an index rejected by the bounds test without having had the length added goes to the generic (wrapping) fallback
+#   rewrap     an index that had the length added reaches a wrapping consumer (PyLong_FromSsize_t -> generic pop, PySequence_*) only
+#              when known non-negative — otherwise -2*len <= i < -len is wrapped twice and an element is silently removed (seed C13d)
+INDEX_HELPER_FILES = ('Optimize.c', 'Builtins.c')
+
+
+def index_helper_family(ctx):
+    """C functions of the container-helper files with a Py_ssize_t value parameter and no flag parameters -> [CFun]"""
+    from . import pC15 as X
+    out, seen = [], set()
+    for cname, decls in sorted(ctx.cat.decls.items()):
+        for d in decls:
+            if d.kind != 'func' or d.file not in INDEX_HELPER_FILES or cname in seen or '{{' in cname:
+                continue
+            seen.add(cname)
+            for f in X.resolve_c(ctx.cat, cname, ('func',))[:1]:
+                tp = f.typed_params()
+                names = f.param_names()
+                if 'wraparound' in names or 'boundscheck' in names:
+                    continue
+                if any(t.strip() == 'Py_ssize_t' for t, n in tp) and f.body:
+                    out.append(f)
+    return out
+
+
+_POPFLOW = []
+
+
+def _popflow_class():
+    """OnceFlow restricted to accesses whose index is a plain variable: `&ITEM(L, cix+1)` inside a memmove is address arithmetic on a
+    position derived from a checked index, not an access with the user's index."""
+    if not _POPFLOW:
+        from . import pC15 as X, sC15
+
+        class PopFlow(sC15.OnceFlow):
+            def consume(self, kind, accessor, argexpr, v, st):
+                if X.strip_wrappers(argexpr)[0] != 'id':
+                    self.events.add(('derived', accessor))
+                    return
+                return super().consume(kind, accessor, argexpr, v, st)
+        _POPFLOW.append(PopFlow)
+    return _POPFLOW[0]
+
+
+def _run_index_flow(name, typed, body_text):
+    from . import pC15 as X
+    problems, events, paths = {}, set(), 0
+    for cfg, text in X.pp_configs(body_text):
+        tree = X.parse_c_function_body(text)
+        fl = _popflow_class()(name, typed, tree, {}, {}, derived={})
+        fl.run(1, 1, cfg)
+        for k, v in fl.problems.items():
+            problems.setdefault(k, v)
+        events |= fl.events
+        paths += fl.paths
+    return problems, events, paths
+
+
+PC_POPIX = '''{
+    Py_ssize_t size = PyList_GET_SIZE(L);
+    if (ix < 0) { ix += size; }
+    if (likely(__Pyx_is_valid_index(ix, size))) {
+        PyObject* v = PyList_GET_ITEM(L, ix);
+        return v;
+    }
+    return __Pyx__PyObject_PopNewIndex(L, PyLong_FromSsize_t(ix));
+}'''
+PC_POPIX_OK = '''{
+    Py_ssize_t size = PyList_GET_SIZE(L);
+    Py_ssize_t cix = ix;
+    if (cix < 0) { cix += size; }
+    if (likely(__Pyx_is_valid_index(cix, size))) {
+        PyObject* v = PyList_GET_ITEM(L, cix);
+        return v;
+    }
+    return __Pyx__PyObject_PopNewIndex(L, PyLong_FromSsize_t(ix));
+}'''
+PC_POPIX_RAW = '''{
+    Py_ssize_t size = PyList_GET_SIZE(L);
+    Py_ssize_t cix = ix;
+    if (cix < 0) { cix += size; }
+    if (likely(cix < size)) {
+        PyObject* v = PyList_GET_ITEM(L, cix);
+        return v;
+    }
+    return __Pyx__PyObject_PopNewIndex(L, PyLong_FromSsize_t(ix));
+}'''
+
+
+def rule_popix(ctx, floor=2):
+    from . import pC15 as X
+    r = Rule('C13-POPIX', 'container helpers taking the user\'s index as Py_ssize_t (list.pop(i) fast path): item access only after a successful bounds test on a '
+             'wrapped index; a rejected or length-added index reaches the generic (self-wrapping) fallback only in its original form - the length is never added twice',
+             floor)
+    fam = index_helper_family(ctx)
+    if not fam:
+        raise AnalysisError('no Py_ssize_t-taking container helper found in %s' % ', '.join(INDEX_HELPER_FILES))
+    members = 0
+    for f in fam:
+        body = f.expanded_body()
+        try:
+            problems, events, paths = _run_index_flow(f.name, f.typed_params(), body)
+        except AnalysisError as e:
+            # loops / switch / goto: not an index fast path of the modelled shape (the float parsers, set iteration); nothing is claimed about them
+            r.info('%s: outside the modelled C subset (%s)' % (f.name, str(e)[:80]))
+            continue
+        accesses = sorted(acc for kind, acc in events if kind in ('raw', 'nonwrap'))
+        consumers = sorted(acc for kind, acc in events if kind == 'consumer')
+        tests = sorted(acc for kind, acc in events if kind == 'validtest')
+        # an index helper is a function that validates an index or hands one to a wrapping consumer; helpers that merely store at a
+        # position they computed themselves (list append) are not
+        if not ((tests or consumers) and (accesses or consumers)):
+            continue
+        members += 1
+        for acc in accesses:
+            r.inst('%s:access:%s' % (f.name, acc), sample='%s reaches %s (%d paths, bounds tests on %s)' % (f.name, acc, paths, ', '.join(tests) or '-'))
+        for acc in consumers:
+            r.inst('%s:fallback:%s' % (f.name, acc), sample='%s hands an index to %s' % (f.name, acc))
+        for k, msg in sorted(problems.items()):
+            r.violate('%s:%s' % (f.name, k), f.file, f.line, msg)
+    if not members:
+        raise AnalysisError('no container helper validates a Py_ssize_t index any more (pop_index moved?)')
+    typed = [('PyObject *', 'L'), ('PyObject *', 'py_ix'), ('Py_ssize_t', 'ix')]
+    bad, _, _ = _run_index_flow('positive_control', typed, PC_POPIX)
+    good, _, _ = _run_index_flow('negative_control', typed, PC_POPIX_OK)
+    raw, _, _ = _run_index_flow('positive_control_2', typed, PC_POPIX_RAW)
+    r.positive_control('rewrap:PyLong_FromSsize_t' in bad and not good and any(k.startswith('unchecked:') for k in raw),
+                       'index wrapped in place and handed to the generic fallback is reported, a wrapped copy is not; an item access behind a one-sided test is reported')
+    return r
+
+
+# ------------------------------------------------------------------------------------------------------------ tree-builder based rules
+# (engine: sa/rules/pC01.py TB - the rewriting functions are run on symbolic nodes by an interpreter of the checker, never imported)
+from . import pC01 as TBM
+
+
+def rule_minmax(ctx):
+    """min()/max() belong to the covered builtins of C13 as well: same decision as C01-MINMAX, registered under the C13 id."""
+    return TBM.rule_minmax(ctx, rid='C13-MINMAX')
+
+
+PC_ANYALL = '''
+class K:
+    def _handle_simple_function_any(self, node, pos_args):
+        return self._t(node, pos_args, True)
+    def _t(self, node, pos_args, is_any):
+        gen = pos_args[0]
+        loop_node = gen.def_node.gbody.body
+        yield_expression, yield_stat_node = _find_single_yield_expression(loop_node)
+        test_node = Nodes.IfStatNode(yield_expression.pos, else_clause=None, if_clauses=[Nodes.IfClauseNode(
+            yield_expression.pos, condition=yield_expression,
+            body=Nodes.ReturnStatNode(node.pos, value=ExprNodes.BoolNode(yield_expression.pos, value=not is_any)))])
+        loop_node.else_clause = Nodes.ReturnStatNode(node.pos, value=ExprNodes.BoolNode(yield_expression.pos, value=is_any))
+        Visitor.recursively_replace_node(gen, yield_stat_node, test_node)
+        return ExprNodes.InlinedGeneratorExpressionNode(gen.pos, gen=gen, orig_func='any')
+'''
+
+
+def _anyall_table(ix, mod, cls, hname):
+    """run the any()/all() handler on a symbolic generator expression -> [(stop-on-element-truth, value returned on stop, value when exhausted)] per replacing path"""
+    T = TBM
+    holder = {}
+
+    def make_args():
+        loop = T.SNode('loop', cls='ForInStatNode')
+        gbody = T.SNode('gbody', {'body': loop}, cls='GeneratorBodyDefNode')
+        dn = T.SNode('def_node', {'gbody': gbody}, cls='GeneratorDefNode')
+        gen = T.SNode('genexpr', {'def_node': dn, 'expr_scope': T.Opaque('scope'), 'has_local_scope': True}, cls='GeneratorExpressionNode')
+        node = T.SNode('call', cls='SimpleCallNode')
+        holder.update(loop=loop, gen=gen, node=node)
+        holder['yexpr'] = T.SNode('element_test', cls='NameNode')
+        holder['ystat'] = T.SNode('yield_stat', cls='ExprStatNode')
+        return [T.self_node(), node, [gen]], {}
+
+    def find_yield(tb, args, kw):
+        return (holder['yexpr'], holder['ystat'])
+    rows = []
+    for res in T.explore(ix, mod, cls, cls.methods[hname], make_args, stubs={'_find_single_yield_expression': find_yield}, with_tb=True):
+        d, (kind, v), tb = res
+        if kind != 'return' or v is holder['node']:
+            continue
+        if not (isinstance(v, T.BNode)):
+            raise AnalysisError('%s returns %r' % (hname, v))
+        reps = [c for c in tb.calls if c[0].endswith('recursively_replace_node')]
+        if len(reps) != 1 or len(reps[0][1]) != 3:
+            raise AnalysisError('%s: the yield statement is not replaced exactly once through Visitor.recursively_replace_node' % hname)
+        _, (root, old, new), _ = reps[0]
+        if old is not holder['ystat']:
+            raise AnalysisError('%s replaces %r instead of the yield statement' % (hname, old))
+
+        def boolval(ret):
+            if not (isinstance(ret, T.BNode) and ret.cls == 'ReturnStatNode'):
+                raise AnalysisError('%s: %r where a ReturnStatNode is expected' % (hname, ret))
+            b = ret.fields.get('value')
+            if not (isinstance(b, T.BNode) and b.cls == 'BoolNode' and isinstance(b.fields.get('value'), bool)):
+                raise AnalysisError('%s: the returned value %r is not a constant BoolNode' % (hname, b))
+            return b.fields['value']
+        if not (isinstance(new, T.BNode) and new.cls == 'IfStatNode' and isinstance(new.fields.get('if_clauses'), list) and len(new.fields['if_clauses']) == 1
+                and new.fields.get('else_clause') is None):
+            raise AnalysisError('%s: the yield statement is replaced by %r (one-clause IfStatNode without else expected)' % (hname, new))
+        clause = new.fields['if_clauses'][0]
+        cond = clause.fields.get('condition')
+        stop_on = True
+        while isinstance(cond, T.BNode) and cond.cls == 'NotNode':
+            stop_on = not stop_on
+            cond = cond.fields.get('operand')
+        if cond is not holder['yexpr']:
+            raise AnalysisError('%s: the loop test %r is not the yielded expression' % (hname, cond))
+        els = holder['loop'].facts.get('else_clause')
+        rows.append((stop_on, boolval(clause.fields.get('body')), boolval(els), v.fields.get('orig_func')))
+    return rows
+
+
+ANYALL_REF = {'any': (True, True, False), 'all': (False, False, True)}      # library reference: any() / all() "equivalent to" loops
+
+
+def rule_anyall(ctx, floor=2):
+    T = TBM
+    r = Rule('C13-ANYALL', 'any(genexpr) / all(genexpr) inlined into a loop (EarlyReplaceBuiltinCalls): the loop stops on the element truth value, returns the constant '
+             'and falls back to the constant that the library reference gives for any() / all()', floor)
+    ix = ctx.index
+    mod = ix.mod('Optimize')
+    cls = ix.cls('Optimize', 'EarlyReplaceBuiltinCalls')
+
+    def check(rule, klass, name, ref, rel, report=True):
+        hname = '_handle_simple_function_' + name
+        if hname not in klass.methods:
+            rule.info('%s() is not inlined' % name)
+            return []
+        try:
+            rows = _anyall_table(ix, mod, klass, hname)
+        except T.TBGiveUp as e:
+            raise AnalysisError('C13-ANYALL: %s leaves the modelled subset of the tree-builder interpreter: %s' % (hname, e))
+        key = '%s.%s' % (klass.name, hname)
+        rule.inst(key, sample='%s: %s' % (key, rows), nontrivial=bool(rows))
+        probs = []
+        for stop_on, early, late, orig in rows:
+            if (stop_on, early, late) != ref:
+                probs.append('%s(genexpr) is expanded into a loop that stops at the first %s element returning %s and returns %s when exhausted; the builtin stops at the '
+                             'first %s element returning %s, else %s' % (name, 'true' if stop_on else 'false', early, late, 'true' if ref[0] else 'false', ref[1], ref[2]))
+        if report:
+            for m in probs:
+                rule.violate(key + ':table', rel, klass.methods[hname].lineno, m)
+        return probs
+    for name, ref in sorted(ANYALL_REF.items()):
+        check(r, cls, name, ref, mod.rel)
+    k = TBM._MiniClass(ast.parse(PC_ANYALL).body[0])
+    pc = Rule('x', 'x')
+    r.positive_control(bool(check(pc, k, 'any', ANYALL_REF['any'], 'pc', report=False)), 'an any() loop with the two constants exchanged is reported')
+    return r
+
+
+# ---- C13-HTAB: the calls emitted by the method handlers, per number of arguments, against the reference of the replaced method
+PYMAX = 'PY_SSIZE_T_MAX'
+# (type in the handler name, method) -> {'defaults': {argument position: value injected when the argument is omitted}, 'tail': [constants appended after the
+#  user's arguments]}.  Positions count the receiver as 0.  Sources: Python library reference (str.startswith/endswith/find/rfind/count: "optional arguments start
+#  and end are interpreted as in slice notation" - the whole string is [0, PY_SSIZE_T_MAX) after clamping; str.split(sep=None, maxsplit=-1); str.replace(old, new,
+#  count=-1); dict.get(key, default=None); dict.setdefault(key, default=None)) and the C-API reference (PyUnicode_Tailmatch: direction -1 prefix, 1 suffix;
+#  PyUnicode_Find: direction 1 forward, -1 backward; PyUnicode_Split: sep NULL splits at whitespace, maxsplit negative = no limit; PyUnicode_Replace: maxcount -1 = all).
+HTAB_REF = {
+    ('unicode', 'endswith'): {'defaults': {2: 0, 3: PYMAX}, 'tail': [1]},
+    ('unicode', 'startswith'): {'defaults': {2: 0, 3: PYMAX}, 'tail': [-1]},
+    ('bytes', 'endswith'): {'defaults': {2: 0, 3: PYMAX}, 'tail': [1]},
+    ('bytes', 'startswith'): {'defaults': {2: 0, 3: PYMAX}, 'tail': [-1]},
+    ('bytearray', 'endswith'): {'defaults': {2: 0, 3: PYMAX}, 'tail': [1]},
+    ('bytearray', 'startswith'): {'defaults': {2: 0, 3: PYMAX}, 'tail': [-1]},
+    ('unicode', 'find'): {'defaults': {2: 0, 3: PYMAX}, 'tail': [1]},
+    ('unicode', 'rfind'): {'defaults': {2: 0, 3: PYMAX}, 'tail': [-1]},
+    ('unicode', 'count'): {'defaults': {2: 0, 3: PYMAX}, 'tail': []},
+    ('unicode', 'split'): {'defaults': {1: 'NULL', 2: -1}, 'tail': []},
+    ('unicode', 'replace'): {'defaults': {3: -1}, 'tail': []},
+    ('dict', 'get'): {'defaults': {2: 'None'}, 'tail': []},
+    ('dict', 'setdefault'): {'defaults': {2: 'None'}, 'tail': None},
+}
+# methods whose result is a value of the program: a helper that returns a C status code may only replace them when the result is not used
+VALUE_METHODS = {'pop', 'get', 'setdefault', 'find', 'rfind', 'count', 'split', 'splitlines', 'join', 'replace', 'encode', 'decode', 'index'}
+HANDLER_NAME = re.compile(r'^_handle_simple_method_([A-Za-z0-9]+)_(\w+)$')
+
+
+def _const_of(v):
+    """normal form of an injected argument node: int | 'PY_SSIZE_T_MAX' | 'NULL' | 'None' | True/False | None (not a constant)"""
+    T = TBM
+    if not isinstance(v, T.BNode):
+        return None
+    if v.cls == 'NullNode':
+        return 'NULL'
+    if v.cls == 'NoneNode':
+        return 'None'
+    if v.cls == 'BoolNode':
+        return v.fields.get('value') if isinstance(v.fields.get('value'), bool) else None
+    if v.cls == 'IntNode':
+        x = v.fields.get('value')
+        if isinstance(x, bool):
+            return None
+        if isinstance(x, int):
+            return x
+        if isinstance(x, str):
+            t = x.strip()
+            if re.fullmatch(r'[+-]?\d+', t):
+                return int(t)
+            return t
+    return None
+
+
+def handler_calls(ix, mod, cls, hname, nargs, result_used=True, none_at=None):
+    """run one method handler for `nargs` arguments (receiver included) -> [(decisions, BNode call | 'unchanged' | other)]"""
+    T = TBM
+
+    def make_args():
+        args = [T.SNode('a%d' % i, {'is_none': (i == none_at), 'is_literal': False, 'is_sequence_constructor': False}, cls='NameNode') for i in range(nargs)]
+        node = T.SNode('call', {'is_temp': True, 'result_is_used': result_used}, cls='SimpleCallNode')
+        return [T.self_node(), node, T.SNode('function', cls='AttributeNode'), args, False], {}
+    out = []
+    for d, (kind, v) in T.explore(ix, mod, cls, cls.methods[hname], make_args, limit=128):
+        if kind == 'raise':
+            out.append((d, 'raise:' + v))
+        elif isinstance(v, T.SNode) and v.label == 'call':
+            out.append((d, 'unchanged'))
+        else:
+            out.append((d, v))
+    return out
+
+
+def _owner_functype_return(ix, cls, ft):
+    """declared return type name of a CFuncType class attribute referred to as self.<name> -> 'py_object_type' / 'c_int_type' ... or None"""
+    T = TBM
+    if not (isinstance(ft, T.SNode) and ft.label.startswith('self.')):
+        return None
+    found = ix.find_class_attr(cls, ft.label[5:])
+    if not found:
+        return None
+    val = found[1]
+    if isinstance(val, ast.Call) and val.args:
+        a = val.args[0]
+        return a.attr if isinstance(a, ast.Attribute) else (a.id if isinstance(a, ast.Name) else None)
+    return None
+
+
+def c_param_null_tested(ctx, cname, pos, depth=0):
+    """does every configuration of the C function `cname` that mentions its parameter #pos test it against NULL (or only hand it on to functions that do /
+    to C-API functions, whose contract is not ours to check)?  -> (known, ok, detail)"""
+    from . import pC15 as X
+    decls = [f for f in X.resolve_c(ctx.cat, cname, ('func',)) if f.body]
+    if not decls or depth > 4:
+        return False, True, 'no C definition in the utility catalogue'
+    for f in decls:
+        names = f.param_names()
+        if pos >= len(names) or not names[pos] or len(names) != len(f.params or []):
+            return False, True, 'parameter list of %s is not modelled' % cname
+        p = re.escape(names[pos])
+        body = f.expanded_body()
+        for cfg, text in X.pp_configs(body):
+            t = strip_c_comments(text)
+            uses = [m.start() for m in re.finditer(r'\b%s\b' % p, t)]
+            if not uses:
+                continue
+            tested = re.search(r'\(\s*(?:un)?likely\(\s*!?\s*%s\s*\)|if\s*\(\s*!?\s*%s\s*\)|\b%s\s*(?:==|!=)\s*NULL|\bNULL\s*(?:==|!=)\s*%s\b|\(\s*!?%s\s*\)\s*\?|\b%s\s*\?|[!(&|]\s*!%s\b|&&\s*%s\b|\|\|\s*%s\b'
+                               % ((p,) * 9), t)
+            if tested:
+                continue
+            # every use must be a complete argument of a call
+            forwarded = []
+            ok_all = True
+            for callee, args, off in X.c_calls_in_text(t):
+                for k, a in enumerate(args):
+                    if re.fullmatch(r'\(?\s*%s\s*\)?' % p, a.strip()):
+                        forwarded.append((callee, k))
+            n_marker = len(re.findall(r'CYTHON_(?:MAYBE_)?UNUSED_VAR\(\s*%s\s*\)' % p, t))
+            real = [(c, k) for c, k in forwarded if not c.startswith('CYTHON_')]
+            if len(forwarded) < len(uses):
+                ok_all = False
+            for callee, k in real:
+                if callee in ('Py_INCREF', 'Py_DECREF', 'Py_XINCREF', 'Py_CLEAR', '__Pyx_NewRef', 'Py_NewRef', '__Pyx_INCREF', '__Pyx_GOTREF'):
+                    ok_all = False
+                elif X.resolve_c(ctx.cat, callee, ('func',)):
+                    known, ok, detail = c_param_null_tested(ctx, callee, k, depth + 1)
+                    if known and not ok:
+                        return True, False, detail
+            if not ok_all:
+                return True, False, 'configuration [%s] of %s uses parameter %r without testing it for NULL' % (cfg or 'default', cname, names[pos])
+    return True, True, ''
+
+
+def rule_htab(ctx, floor=85):
+    T = TBM
+    r = Rule('C13-HTAB', 'method handlers of OptimizeBuiltinCalls run per number of arguments (tree-builder interpreter): arguments the caller omitted are filled with the '
+             'default of the replaced method, direction / flag constants agree with the method name and the C-API reference, NULL is only passed to a parameter the C helper '
+             'tests, a status-returning helper is only used when the result is unused, and `is_<attr>` flags have the polarity of the attribute they are computed from', floor)
+    ix = ctx.index
+    mod = ix.mod('Optimize')
+    cls = ix.cls('Optimize', 'OptimizeBuiltinCalls')
+    gaveup = 0
+    seen_null = set()
+    _violate = r.violate
+    reported = set()
+
+    def violate_once(key, *a, **k):
+        if key not in reported:
+            reported.add(key)
+            _violate(key, *a, **k)
+    r.violate = violate_once
+    for hname, fn in sorted(cls.methods.items()):
+        m = HANDLER_NAME.match(hname)
+        if not m:
+            continue
+        tname, meth = m.group(1), m.group(2)
+        ref = HTAB_REF.get((tname, meth))
+        tables = {}
+        for nargs in (1, 2, 3, 4, 5):
+            for used in (True, False):
+                try:
+                    outs = handler_calls(ix, mod, cls, hname, nargs, used)
+                except T.TBGiveUp as e:
+                    gaveup += 1
+                    if ref is not None:
+                        raise AnalysisError('C13-HTAB: %s with %d arguments leaves the modelled subset of the tree-builder interpreter: %s' % (hname, nargs, e))
+                    continue
+                calls = [(d, v) for d, v in outs if isinstance(v, T.BNode) and v.cls == 'PythonCapiCallNode']
+                if not calls:
+                    continue
+                key = 'OptimizeBuiltinCalls.%s:%d-args%s' % (hname, nargs, '' if used else ':result-unused')
+                r.inst(key, sample='%s -> %s' % (key, sorted({v.args[1] for _, v in calls if len(v.args) > 1 and isinstance(v.args[1], str)})))
+                for d, v in calls:
+                    cname = v.args[1] if len(v.args) > 1 and isinstance(v.args[1], str) else None
+                    cargs = v.fields.get('args')
+                    if not isinstance(cargs, list):
+                        continue
+                    # ---- NULL only to parameters the helper tests
+                    for i, a in enumerate(cargs):
+                        if isinstance(a, T.BNode) and a.cls == 'NullNode' and cname and (cname, i) not in seen_null:
+                            seen_null.add((cname, i))
+                            known, ok, detail = c_param_null_tested(ctx, cname, i)
+                            if known:
+                                r.inst('null:%s:%d' % (cname, i), sample='%s passes NULL as argument %d of %s' % (hname, i + 1, cname))
+                                if not ok:
+                                    r.violate('OptimizeBuiltinCalls.%s:null:%s:%d' % (hname, cname, i), mod.rel, fn.lineno,
+                                              '%s passes NULL as argument %d of %s for a call with %d argument(s), but %s: the helper dereferences NULL (crash) where the '
+                                              'method uses its default' % (hname, i + 1, cname, nargs, detail))
+                    # ---- status-returning helper only when the result is unused
+                    if used and meth in VALUE_METHODS and len(v.args) > 2:
+                        rt = _owner_functype_return(ix, cls, v.args[2])
+                        if rt in ('c_int_type', 'c_returncode_type', 'c_void_type'):
+                            r.violate('OptimizeBuiltinCalls.%s:status-result:%s' % (hname, cname), mod.rel, fn.lineno,
+                                      '%s replaces %s.%s(...) whose RESULT IS USED by %s, declared to return %s (a status code): the expression evaluates to the status '
+                                      'instead of the value the method returns' % (hname, tname, meth, cname, rt))
+                    # ---- flag polarity: IntNode/BoolNode computed from an attribute `x.<attr>` passed for a C parameter is_<attr> / <attr>
+                    tables.setdefault((nargs, used, cname), []).append((d, cargs))
+                    # ---- reference defaults / tail constants
+                    if ref is not None and used:
+                        tail = ref['tail']
+                        want_len = None
+                        for i, a in enumerate(cargs):
+                            if i < nargs:
+                                continue
+                            c = _const_of(a)
+                            if i in ref['defaults']:
+                                want = ref['defaults'][i]
+                                if c != want:
+                                    r.violate('OptimizeBuiltinCalls.%s:default:%d' % (hname, i), mod.rel, fn.lineno,
+                                              '%s.%s called with %d argument(s): argument %d of %s is filled with %r, the method\'s default corresponds to %r'
+                                              % (tname, meth, nargs, i + 1, cname, c if c is not None else a, want))
+                        if tail is not None:
+                            nfix = max(list(ref['defaults']) + [nargs - 1]) + 1
+                            got_tail = [_const_of(a) for a in cargs[nfix:]]
+                            if got_tail != tail:
+                                r.violate('OptimizeBuiltinCalls.%s:tail' % hname, mod.rel, fn.lineno,
+                                          '%s.%s: the constant argument(s) after the user\'s arguments are %r, the C-API reference requires %r for this method '
+                                          '(direction of the match / search)' % (tname, meth, got_tail, tail))
+        # polarity across paths
+        for (nargs, used, cname), rows in tables.items():
+            if not cname or len(rows) < 2:
+                continue
+            from . import pC15 as X
+            pnames = None
+            for f in X.resolve_c(ctx.cat, cname, ('macro', 'func', 'proto')):
+                pn = f.param_names()
+                if pn and len(pn) == len(rows[0][1]):
+                    pnames = pn
+                    break
+            if not pnames:
+                continue
+            for i, pn in enumerate(pnames):
+                if not pn:
+                    continue
+                attr = pn[3:] if pn.startswith('is_') else pn
+                if len(attr) < 4:
+                    continue
+                by = {}
+                for d, cargs in rows:
+                    keys = [k for k in d if isinstance(k, str) and k.endswith('.' + attr)]
+                    if len(keys) != 1:
+                        continue
+                    c = _const_of(cargs[i])
+                    if c is None:
+                        continue
+                    by.setdefault(d[keys[0]], set()).add(bool(c))
+                if set(by) == {True, False}:
+                    r.inst('polarity:%s:%s:%s' % (hname, cname, pn), sample='%s passes %s of %s from an attribute .%s' % (hname, pn, cname, attr))
+                    if by[True] != {True} or by[False] != {False}:
+                        r.violate('OptimizeBuiltinCalls.%s:polarity:%s:%s' % (hname, cname, pn), mod.rel, fn.lineno,
+                                  '%s passes %s = %s when the attribute .%s is true and %s when it is false: the flag parameter %r of %s has the opposite meaning'
+                                  % (hname, pn, sorted(by[True]), attr, sorted(by[False]), pn, cname))
+    r.info('%d handler/arity combinations are outside the modelled subset (not claimed)' % gaveup)
+    # positive control: dict.get with a NULL default against the real helper
+    known, ok, _ = c_param_null_tested(ctx, '__Pyx_PyDict_GetItemDefault', 2)
+    known2, ok2, _ = c_param_null_tested(ctx, '__Pyx_PyDict_Pop', 2)
+    r.positive_control(known and not ok and known2 and ok2, '__Pyx_PyDict_GetItemDefault does not test default_value (NULL would crash); __Pyx_PyDict_Pop does')
+    return r
+
+
+# ------------------------------------------------------------------------------------------------------------ C13-TABNAME
+# Table rows that map a builtin method / a builtin type to a C function by NAME: the function named must be the one for that method / type.
+#   (a) Builtin.py `("dict", "&PyDict_Type", [BuiltinMethod("keys", ..., "__Pyx_PyDict_Keys"), ...])`: where the C function is a catalogue helper that calls
+#       a method by name (CALL_UNBOUND_METHOD(PyDict_Type, "keys", d) / PYIDENT("keys")), that name is the row's method; otherwise the C-API naming
+#       convention Py<Type>_<Method> (C-API reference) must hold: the method name, without underscores, is contained in the C name.
+#   (b) functions that return a C function name per builtin type test (`if typ.is_pylist_type: return "__Pyx_PyList_GET_SIZE"`): the name contains the type.
+METHOD_ALIASES = {'has_key': 'contains', '__contains__': 'contains', '__mul__': 'multiply'}     # dict.has_key == `in` (Py2 legacy), operator slots
+TYPE_WORDS = {'pystr': 'unicode', 'pybytes': 'bytes', 'pybytearray': 'bytearray', 'pylist': 'list', 'pytuple': 'tuple', 'pyanyset': 'set',
+              'pyset': 'set', 'pyfrozenset': 'frozenset', 'pyanydict': 'dict', 'pydict': 'dict'}
+
+
+def builtin_method_rows(ix):
+    """-> [(type name, method name, C name, lineno)] from the (name, typeptr, [BuiltinMethod...]) rows of Builtin.py"""
+    m = ix.mod('Builtin')
+    rows = []
+    for n in ast.walk(m.tree):
+        if isinstance(n, ast.Tuple) and len(n.elts) >= 3 and isinstance(n.elts[0], ast.Constant) and isinstance(n.elts[0].value, str) \
+                and isinstance(n.elts[2], ast.List):
+            tname = n.elts[0].value
+            for c in n.elts[2].elts:
+                if isinstance(c, ast.Call) and isinstance(c.func, ast.Name) and c.func.id == 'BuiltinMethod' and len(c.args) >= 4 \
+                        and all(isinstance(a, ast.Constant) for a in (c.args[0], c.args[3])):
+                    rows.append((tname, c.args[0].value, c.args[3].value, c.lineno))
+    return m, rows
+
+
+def _called_method_names(ctx, cname):
+    """names of the Python methods a catalogue helper calls by name -> set, or None when the helper has no body in the catalogue"""
+    from . import pC15 as X
+    decls = [f for f in X.resolve_c(ctx.cat, cname, ('func', 'macro')) if f.body]
+    if not decls:
+        return None
+    out = set()
+    for f in decls:
+        t = strip_c_comments(f.expanded_body() or '')
+        out |= set(re.findall(r'CALL_UNBOUND_METHOD\(\s*\w+\s*,\s*"(\w+)"', t))
+        out |= set(re.findall(r'CallMethod\d?\(\s*\w+\s*,\s*PYIDENT\("(\w+)"\)', t))
+    return out
+
+
+def rule_tabname(ctx, floor=30):
+    r = Rule('C13-TABNAME', 'rows that select a C function by name for a builtin method / builtin type: the helper calls the method of that name, or its C-API name '
+             'carries the method (Py<Type>_<Method>) / the type it is selected for', floor)
+    ix = ctx.index
+    m, rows = builtin_method_rows(ix)
+    if len(rows) < 15:
+        raise AnalysisError('only %d BuiltinMethod rows found in Builtin.py' % len(rows))
+    for tname, meth, cname, ln in rows:
+        key = 'Builtin:%s.%s->%s' % (tname, meth, cname)
+        want = METHOD_ALIASES.get(meth, meth).replace('_', '').lower()
+        called = _called_method_names(ctx, cname)
+        r.inst(key, sample='%s (%s)' % (key, 'calls %s' % sorted(called) if called else 'by C-API name'))
+        if called:
+            # dict.iterkeys / dict.viewkeys (Py2 spellings) are served by the helper that calls keys(): the called name may be a part of the row's name
+            if not any(c.lower() in want or want in c.lower() for c in called):
+                r.violate(key, m.rel, ln, 'the row maps %s.%s to %s, but that helper calls the method(s) %s: %s.%s() runs a different method'
+                          % (tname, meth, cname, sorted(called), tname, meth))
+        elif want not in cname.replace('_', '').lower():
+            r.violate(key, m.rel, ln, 'the row maps %s.%s to the C function %s, whose name does not carry the method (C-API naming Py<Type>_<Method>): '
+                      '%s.%s() is compiled into a different operation' % (tname, meth, cname, tname, meth))
+    # (b) per-type name selection functions
+    opt = ix.mod('Optimize')
+    n_b = 0
+    for qn, owner, fn in ix.functions_of(opt):
+        for s in ast.walk(fn):
+            if not isinstance(s, ast.If):
+                continue
+            t = s.test
+            if not (isinstance(t, ast.Attribute) and re.fullmatch(r'is_(py\w+)_type', t.attr)):
+                continue
+            word = TYPE_WORDS.get(re.fullmatch(r'is_(py\w+)_type', t.attr).group(1))
+            if not word or len(s.body) != 1 or not isinstance(s.body[0], ast.Return) or not isinstance(s.body[0].value, ast.Constant) \
+                    or not isinstance(s.body[0].value.value, str):
+                continue
+            cname = s.body[0].value.value
+            if not re.match(r'(__Pyx_)?Py[A-Z]', cname):
+                continue
+            n_b += 1
+            key = '%s:%s->%s' % (qn, t.attr, cname)
+            r.inst(key, sample=key)
+            if ('py' + word) not in cname.lower():
+                r.violate(key, opt.rel, s.lineno, '%s returns %s for objects with %s: the C function belongs to a different builtin type (wrong struct layout / '
+                          'wrong result for %s objects)' % (qn, cname, t.attr, word))
+    if not n_b:
+        raise AnalysisError('no per-type C function selection (`if typ.is_py<type>_type: return "<name>"`) found in Optimize.py')
+    r.positive_control('keys' in (_called_method_names(ctx, '__Pyx_PyDict_Keys') or ()) and 'values' not in (_called_method_names(ctx, '__Pyx_PyDict_Keys') or ()),
+                       'the helper behind dict.keys calls "keys" (a row naming it for dict.values would be reported)')
+    return r
+
+
+# ------------------------------------------------------------------------------------------------------------ C13-WITHERR
+# Dictionary lookups of the C-API that return NULL both for "missing" and for "error" (PyDict_GetItemWithError, _PyDict_GetItem_KnownHash): on the
+# path where the result is NULL, PyErr_Occurred() has to be consulted before a non-error result is produced - otherwise a lookup that failed with an
+# exception (unhashable key, failing __eq__/__hash__) is answered with the default and the exception stays set.
+WITHERR_FUNCS = ('PyDict_GetItemWithError', '_PyDict_GetItem_KnownHash', '__Pyx_PyDict_GetItemStrWithError')
+WITHERR_FILES = ('Optimize.c', 'Builtins.c', 'ObjectHandling.c', 'FunctionArguments.c', 'ModuleSetupCode.c')
+
+
+def witherr_sites(ctx):
+    from ..engine import cguard
+    out = []
+    for uf in WITHERR_FILES:
+        rel = 'Cython/Utility/' + uf
+        try:
+            text = strip_c_comments(ctx.read(rel))
+        except AnalysisError:
+            continue
+        for m in re.finditer(r'(\*?\s*[A-Za-z_]\w*)\s*=\s*(%s)\s*\(' % '|'.join(WITHERR_FUNCS), text):
+            if re.match(r'\s*#\s*define', text[text.rfind('\n', 0, m.start()) + 1:m.start()]):
+                continue
+            f = cguard.function_at(text, m.start())
+            if f is None:
+                # header written with preprocessor alternatives (`#if .. static T f(a) #else static T f(a, b) #endif {`): take the brace block at column 0
+                lb = text.rfind('\n{', 0, m.start())
+                if lb < 0:
+                    continue
+                rb = cguard._match_brace(text, lb + 1)
+                if rb < m.start():
+                    continue
+                hm = re.findall(r'([A-Za-z_]\w*)\s*\([^;{}]*\)\s*(?:#[^\n]*\n\s*)*$', text[max(0, lb - 400):lb + 1])
+                heads = re.findall(r'\b(__Pyx\w+)\s*\(', text[max(0, lb - 400):lb])
+                f = ((heads[-1] + '(') if heads else '?(', lb + 1, rb)
+            head, lb, rb = f
+            var = m.group(1).replace(' ', '')
+            out.append((rel, text, m.start(), text.count('\n', 0, m.start()) + 1, head, lb, rb, var, m.group(2)))
+    return out
+
+
+def witherr_problem(text, pos, rb, var):
+    """-> None when PyErr_Occurred() is consulted on the NULL path after the lookup at `pos` (function body ends at rb), else a message"""
+    from ..engine import cguard
+    v = re.escape(var)
+    rest = text[pos:rb]
+    # the preprocessor alternative the lookup belongs to ends at the next #else / #elif / #endif of its own level
+    depth, end = 0, len(rest)
+    for m in re.finditer(r'^[ \t]*#[ \t]*(if|ifdef|ifndef|elif|else|endif)\b', rest, re.M):
+        d = m.group(1)
+        if d in ('if', 'ifdef', 'ifndef'):
+            depth += 1
+        elif d == 'endif':
+            if depth == 0:
+                end = m.start()
+                break
+            depth -= 1
+        elif depth == 0:
+            end = m.start()
+            break
+    seg = rest[:end]
+    for m in re.finditer(r'PyErr_Occurred\s*\(\s*\)', seg):
+        gs = cguard.guards(text, pos + m.start())
+        ok = True
+        for cond, pol in gs:
+            c = re.sub(r'\s+', '', cond)
+            c = re.sub(r'(?:un)?likely\((.*)\)$', r'\1', c)
+            c = c.strip('()')
+            if re.fullmatch(r'!%s' % v, c) or re.fullmatch(r'%s==NULL' % v, c):
+                if not pol:
+                    ok = False
+            elif re.fullmatch(v, c) or re.fullmatch(r'%s!=NULL' % v, c):
+                if pol:
+                    ok = False
+        if ok:
+            return None
+    return ('the result %r of the lookup may be NULL because of an exception, but PyErr_Occurred() is not consulted on the NULL path before the function goes on: '
+            'an unhashable / failing key is treated as "missing" and the exception stays set' % var)
+
+
+def rule_witherr(ctx, floor=4):
+    r = Rule('C13-WITHERR', 'dict lookups that return NULL for "missing" and for "error" (PyDict_GetItemWithError, _PyDict_GetItem_KnownHash): PyErr_Occurred() is consulted on '
+             'the NULL path before a non-error result is produced', floor)
+    for rel, text, pos, line, head, lb, rb, var, fn in witherr_sites(ctx):
+        name = re.findall(r'([A-Za-z_]\w*)\s*\($', head.strip() + '(')
+        fname = (re.findall(r'([A-Za-z_]\w*)\s*\(', head) or ['?'])[0]
+        key = '%s:%s:%s=%s' % (rel.rsplit('/', 1)[1], fname, var, fn)
+        r.inst(key, sample=key)
+        p = witherr_problem(text, pos, rb, var)
+        if p:
+            r.violate(key, rel, line, '%s: %s' % (fname, p))
+    pc = 'static PyObject* f(PyObject* d, PyObject* k, PyObject* dv) {\n PyObject* value;\n value = PyDict_GetItemWithError(d, k);\n if (unlikely(!value)) {\n value = dv;\n }\n Py_INCREF(value);\n return value;\n}\n'
+    ok = 'static PyObject* f(PyObject* d, PyObject* k, PyObject* dv) {\n PyObject* value;\n value = PyDict_GetItemWithError(d, k);\n if (likely(value)) {\n ;\n } else if (unlikely(PyErr_Occurred())) {\n return NULL;\n } else {\n value = dv;\n }\n return value;\n}\n'
+    r.positive_control(witherr_problem(pc, pc.index('value = PyDict'), len(pc) - 2, 'value') is not None
+                       and witherr_problem(ok, ok.index('value = PyDict'), len(ok) - 2, 'value') is None,
+                       'a NULL branch that substitutes the default without PyErr_Occurred() is reported; the else-if form is accepted')
+    return r
+
+
+# ============================================================================================================ LinSym
+# Symbolic execution of small C helpers on LINEAR FORMS over integer symbols, with linear path conditions.  Conditions that compare linear forms split the
+# path and add the (integer-tightened) constraint; infeasible paths are pruned by Fourier-Motzkin elimination.  Used to decide slice normalisation and list
+# surgery helpers against a reference written in the same C subset - for ALL index values at once, not for sampled ones.
+class Lf:
+    """integer linear form  c + sum k_i * sym_i"""
+    __slots__ = ('c', 'k')
+
+    def __init__(self, c=0, k=None):
+        self.c = c
+        self.k = {s: v for s, v in (k or {}).items() if v != 0}
+
+    @staticmethod
+    def sym(s):
+        return Lf(0, {s: 1})
+
+    def __add__(self, o):
+        k = dict(self.k)
+        for s, v in o.k.items():
+            k[s] = k.get(s, 0) + v
+        return Lf(self.c + o.c, k)
+
+    def __neg__(self):
+        return Lf(-self.c, {s: -v for s, v in self.k.items()})
+
+    def __sub__(self, o):
+        return self + (-o)
+
+    def scale(self, n):
+        return Lf(self.c * n, {s: v * n for s, v in self.k.items()})
+
+    def is_const(self):
+        return not self.k
+
+    def key(self):
+        return (self.c, tuple(sorted(self.k.items())))
+
+    def __eq__(self, o):
+        return isinstance(o, Lf) and self.key() == o.key()
+
+    def __hash__(self):
+        return hash(self.key())
+
+    def __repr__(self):
+        parts = []
+        for s, v in sorted(self.k.items()):
+            parts.append(('%+d*%s' % (v, s)).replace('+1*', '+').replace('-1*', '-'))
+        if self.c or not parts:
+            parts.append('%+d' % self.c)
+        return ''.join(parts).lstrip('+')
+
+
+def fm_feasible(cons, depth=0):
+    """is the system  {f >= 0 for f in cons}  satisfiable over the rationals?  (Fourier-Motzkin; forms are integer-tightened by the caller, so for the
+    unit-coefficient systems met here rational and integer feasibility coincide in practice; a 'feasible' answer is only ever used to REPORT, together
+    with an integer witness)"""
+    cons = list({c.key(): c for c in cons}.values())
+    for c in cons:
+        if c.is_const() and c.c < 0:
+            return False
+    cons = [c for c in cons if not c.is_const()]
+    if not cons:
+        return True
+    if len(cons) > 400 or depth > 12:
+        return True
+    # eliminate the variable occurring in the fewest products
+    vars_ = {}
+    for c in cons:
+        for s in c.k:
+            vars_.setdefault(s, [0, 0])[0 if c.k[s] > 0 else 1] += 1
+    v = min(vars_, key=lambda s: vars_[s][0] * vars_[s][1])
+    pos = [c for c in cons if c.k.get(v, 0) > 0]
+    neg = [c for c in cons if c.k.get(v, 0) < 0]
+    rest = [c for c in cons if v not in c.k]
+    for p in pos:
+        for n in neg:
+            a, b = p.k[v], -n.k[v]
+            rest.append(p.scale(b) + n.scale(a))
+    return fm_feasible(rest, depth + 1)
+
+
+_WITNESS_BUDGET = [0]
+
+
+def find_witness(cons, syms, box=6):
+    """an integer point of the box satisfying all constraints, or None.  Constraints over symbols that are not index quantities (pointer tests) are
+    dropped: they do not restrict the indices.  Depth-first with pruning; a global budget keeps a violating run fast."""
+    idx = sorted(s for s in syms if '@' not in s or s.split('@')[0].endswith(('len', 'length', 'size')))
+    keep = [c for c in cons if all(s in idx for s in c.k)]
+    if len(idx) > 5 or _WITNESS_BUDGET[0] > 60:
+        return None
+    _WITNESS_BUDGET[0] += 1
+    order = sorted(range(-box, box + 1), key=abs)
+    env = {}
+
+    def ok_partial():
+        for c in keep:
+            if all(s in env for s in c.k):
+                if c.c + sum(k * env[s] for s, k in c.k.items()) < 0:
+                    return False
+        return True
+
+    def rec(i):
+        if i == len(idx):
+            return dict(env)
+        for v in order:
+            env[idx[i]] = v
+            if ok_partial():
+                r = rec(i + 1)
+                if r is not None:
+                    return r
+        env.pop(idx[i], None)
+        return None
+    return rec(0)
+
+
+class LsGiveUp(Exception):
+    pass
+
+
+class LinSym:
+    """One symbolic run of a parsed C function body (sa/rules/pC15.CParser AST)."""
+    MAX_PATHS = 3000
+
+    def __init__(self, inputs, base_cons=(), hooks=None, fixed=None):
+        self.inputs = dict(inputs)            # C variable -> Lf (initial value)
+        self.base = list(base_cons)
+        self.hooks = hooks or {}
+        self.fixed = fixed or {}              # C variable -> int constant (scenario parameters such as direction)
+        self.results = []                     # (path constraints, outcome, events)
+        self.paths = 0
+        self.nsym = 0
+
+    def fresh(self, hint='u'):
+        self.nsym += 1
+        return Lf.sym('%s%d' % (hint, self.nsym))
+
+    # -------------------------------------------------------------------------------------------------------- expressions
+    def lin(self, e, st):
+        """-> Lf or None (not a linear integer expression of known symbols)"""
+        from . import pC15 as X
+        e = X.strip_wrappers(e)
+        k = e[0]
+        if k == 'num':
+            return Lf(e[1]) if e[1] is not None else None
+        if k == 'id':
+            if e[1] in st['env']:
+                v = st['env'][e[1]]
+                return v if isinstance(v, Lf) else None
+            if e[1] in self.fixed:
+                return Lf(self.fixed[e[1]])
+            return None
+        if k == 'un' and e[1] == '-':
+            v = self.lin(e[2], st)
+            return -v if v is not None else None
+        if k == 'un' and e[1] == '+':
+            return self.lin(e[2], st)
+        if k == 'bin' and e[1] in ('+', '-'):
+            a, b = self.lin(e[2], st), self.lin(e[3], st)
+            if a is None or b is None:
+                return None
+            return a + b if e[1] == '+' else a - b
+        if k == 'bin' and e[1] == '*':
+            a, b = self.lin(e[2], st), self.lin(e[3], st)
+            if a is not None and b is not None:
+                if a.is_const():
+                    return b.scale(a.c)
+                if b.is_const():
+                    return a.scale(b.c)
+            return None
+        if k == 'tern':
+            return None
+        if k == 'call':
+            h = self.hooks.get('call_value')
+            if h:
+                return h(self, e, st)
+        if k == 'bin' and e[1] == '>>':
+            h = self.hooks.get('shift_value')
+            if h:
+                return h(self, e, st)
+        return None
+
+    def branches(self, cond, st):
+        """-> [(truth, new state)] for the feasible outcomes of a condition"""
+        from . import pC15 as X
+        c = X.strip_wrappers(cond)
+        k = c[0]
+        if k == 'un' and c[1] == '!':
+            return [(not t, s) for t, s in self.branches(c[2], st)]
+        if k == 'bin' and c[1] in ('&&', '&'):
+            out = []
+            for t, s in self.branches(c[2], st):
+                if t:
+                    out += self.branches(c[3], s)
+                else:
+                    out.append((False, s))
+            return out
+        if k == 'bin' and c[1] in ('||', '|'):
+            out = []
+            for t, s in self.branches(c[2], st):
+                if t:
+                    out.append((True, s))
+                else:
+                    out += self.branches(c[3], s)
+            return out
+        if k == 'bin' and c[1] in ('<', '<=', '>', '>=', '==', '!='):
+            a, b = self.lin(c[2], st), self.lin(c[3], st)
+            if a is not None and b is not None:
+                d = a - b
+                op = c[1]
+                # forms f with the meaning f >= 0 (integers)
+                true_c = {'<': [-d - Lf(1)], '<=': [-d], '>': [d - Lf(1)], '>=': [d], '==': [d, -d], '!=': None}[op]
+                false_c = {'<': [d], '<=': [d - Lf(1)], '>': [-d], '>=': [-d - Lf(1)], '==': None, '!=': [d, -d]}[op]
+                out = []
+                for truth, cs in ((True, true_c), (False, false_c)):
+                    alts = [cs] if cs is not None else [[d - Lf(1)], [-d - Lf(1)]]      # a != b: two half spaces
+                    for alt in alts:
+                        s2 = self.copy(st)
+                        s2['pc'] = s2['pc'] + alt
+                        if fm_feasible(self.base + s2['pc']):
+                            out.append((truth, s2))
+                return out
+        if k == 'num' and c[1] is not None:
+            return [(c[1] != 0, st)]
+        v = self.lin(c, st)
+        if v is not None:
+            return self.branches(('bin', '!=', c, ('num', 0)), st)
+        h = self.hooks.get('condition')
+        if h:
+            r = h(self, c, st)
+            if r is not None:
+                return r
+        key = '?' + X.c_text(c)
+        if key in st['atoms']:
+            return [(st['atoms'][key], st)]
+        out = []
+        for t in (True, False):
+            s2 = self.copy(st)
+            s2['atoms'][key] = t
+            out.append((t, s2))
+        return out
+
+    def copy(self, st):
+        return {'env': dict(st['env']), 'pc': list(st['pc']), 'atoms': dict(st['atoms']), 'events': list(st['events']), 'aux': dict(st['aux'])}
+
+    # -------------------------------------------------------------------------------------------------------- statements
+    def run(self, tree):
+        st = {'env': dict(self.inputs), 'pc': [], 'atoms': {}, 'events': [], 'aux': {}}
+        top = tree[1]
+        labels = {s[1]: i for i, s in enumerate(top) if s[0] == 'label'}
+        todo = [(0, st)]
+        while todo:
+            i, s = todo.pop()
+            for kind, payload, s2 in self.exec_list(top[i:], s):
+                if kind == 'goto':
+                    if payload not in labels:
+                        raise LsGiveUp('goto %s' % payload)
+                    todo.append((labels[payload], s2))
+                else:
+                    self.finish(('fall',), s2)
+        return self.results
+
+    def finish(self, outcome, st):
+        self.paths += 1
+        if self.paths > self.MAX_PATHS:
+            raise LsGiveUp('more than %d paths' % self.MAX_PATHS)
+        self.results.append((st['pc'], outcome, st['events'], st['atoms'], st['aux']))
+
+    def exec_list(self, stmts, st):
+        cur, esc = [st], []
+        for s in stmts:
+            nxt = []
+            for s1 in cur:
+                for kind, payload, s2 in self.exec_stmt(s, s1):
+                    if kind == 'fall':
+                        nxt.append(s2)
+                    else:
+                        esc.append((kind, payload, s2))
+            cur = nxt
+            if not cur:
+                break
+        return [('fall', None, s) for s in cur] + esc
+
+    def assign(self, name, rhs, st):
+        v = self.lin(rhs, st)
+        h = self.hooks.get('assign')
+        if h:
+            r = h(self, name, rhs, v, st)
+            if r is not None:
+                st['env'][name] = r
+                return
+        st['env'][name] = v if v is not None else self.fresh(name + '_')
+
+    def effect(self, e, st):
+        """expression statement"""
+        from . import pC15 as X
+        e0 = X.strip_wrappers(e)
+        if e0[0] == 'assign':
+            op, l, r = e0[1], X.strip_wrappers(e0[2]), e0[3]
+            if l[0] == 'id':
+                if op == '=':
+                    self.assign(l[1], r, st)
+                elif op in ('+=', '-='):
+                    cur = st['env'].get(l[1])
+                    v = self.lin(r, st)
+                    if isinstance(cur, Lf) and v is not None:
+                        st['env'][l[1]] = cur + v if op == '+=' else cur - v
+                    else:
+                        st['env'][l[1]] = self.fresh(l[1] + '_')
+                else:
+                    st['env'][l[1]] = self.fresh(l[1] + '_')
+            return
+        if e0[0] == 'post' or (e0[0] == 'un' and e0[1] in ('++', '--')):
+            t = X.strip_wrappers(e0[2])
+            if t[0] == 'id' and isinstance(st['env'].get(t[1]), Lf):
+                st['env'][t[1]] = st['env'][t[1]] + Lf(1 if e0[1] == '++' else -1)
+            return
+        h = self.hooks.get('effect')
+        if h:
+            h(self, e0, st)
+
+    def exec_stmt(self, s, st):
+        from . import pC15 as X
+        k = s[0]
+        if k == 'block':
+            return self.exec_list(s[1], st)
+        if k == 'label':
+            return [('fall', None, st)]
+        if k == 'goto':
+            return [('goto', s[1], st)]
+        if k == 'decl':
+            states = [self.copy(st)]
+            for name, init, typ in s[1]:
+                nxt = []
+                for s1 in states:
+                    if init is None:
+                        s1['env'][name] = None
+                        nxt.append(s1)
+                        continue
+                    i0 = X.strip_wrappers(init)
+                    if i0[0] == 'tern':         # x = c ? a : b  splits the path
+                        for t, s2 in self.branches(i0[1], s1):
+                            s2 = self.copy(s2)
+                            self.assign(name, i0[2] if t else i0[3], s2)
+                            nxt.append(s2)
+                    else:
+                        self.assign(name, init, s1)
+                        nxt.append(s1)
+                states = nxt
+            return [('fall', None, s1) for s1 in states]
+        if k == 'expr':
+            e0 = X.strip_wrappers(s[1])
+            if e0[0] == 'assign' and e0[1] == '=' and X.strip_wrappers(e0[3])[0] == 'tern' and X.strip_wrappers(e0[2])[0] == 'id':
+                tn = X.strip_wrappers(e0[3])
+                out = []
+                for t, s2 in self.branches(tn[1], st):
+                    s2 = self.copy(s2)
+                    self.assign(X.strip_wrappers(e0[2])[1], tn[2] if t else tn[3], s2)
+                    out.append(('fall', None, s2))
+                return out
+            st = self.copy(st)
+            self.effect(s[1], st)
+            return [('fall', None, st)]
+        if k == 'return':
+            st = self.copy(st)
+            h = self.hooks.get('return')
+            out = h(self, s[1], st) if h else ('return', X.c_text(s[1]) if s[1] is not None else None)
+            self.finish(out, st)
+            return []
+        if k == 'if':
+            out = []
+            for t, s2 in self.branches(s[1], st):
+                if t:
+                    out += self.exec_stmt(s[2], s2)
+                elif s[3] is not None:
+                    out += self.exec_stmt(s[3], s2)
+                else:
+                    out.append(('fall', None, s2))
+            return out
+        raise LsGiveUp('statement kind %s' % k)
+
+
+def implied(base, pc, form):
+    """does  base & pc  imply  form >= 0 ?  (the negation  form <= -1  is infeasible)"""
+    return not fm_feasible(base + pc + [-form - Lf(1)])
+
+
+def equal_under(base, pc, a, b):
+    return not fm_feasible(base + pc + [a - b - Lf(1)]) and not fm_feasible(base + pc + [b - a - Lf(1)])
+
+
+# ------------------------------------------------------------------------------------------------------------ C13-SLICE
+# start / end handling of the string helpers that implement slicing semantics themselves, decided against a reference written in the same C subset:
+#   __Pyx_PyBytes_SingleTailmatch  vs  CPython's tailmatch()  (Objects/bytes_methods.c: ADJUST_INDICES; startswith: start > len - slen -> no match;
+#                                      endswith: end - start < slen || start > len -> no match, start = max(start, end - slen); end - start < slen -> no match;
+#                                      memcmp(str + start, sub, slen))
+#   __Pyx_PyUnicode_Substring      vs  PySlice_AdjustIndices with step 1 (Objects/sliceobject.c) followed by "empty when stop <= start"
+# Both sides are run symbolically (LinSym); for every pair of jointly feasible paths the outcomes must agree as linear forms under the path
+# condition, and every memory access of the candidate must lie inside [0, len] on its path.
+REF_TAILMATCH = '''{
+    if (end > len) end = len; else if (end < 0) { end += len; if (end < 0) end = 0; }
+    if (start < 0) { start += len; if (start < 0) start = 0; }
+    if (direction < 0) {
+        if (start > len - slen) return NOMATCH();
+    } else {
+        if (end - start < slen || start > len) return NOMATCH();
+        if (end - slen > start) start = end - slen;
+    }
+    if (end - start < slen) return NOMATCH();
+    return MATCH(start, slen);
+}'''
+REF_SUBSTRING = '''{
+    if (start < 0) { start += len; if (start < 0) start = 0; } else if (start > len) start = len;
+    if (stop < 0) { stop += len; if (stop < 0) stop = 0; } else if (stop > len) stop = len;
+    if (stop <= start) return EMPTY();
+    return SLICE(start, stop - start);
+}'''
+_SIZE_CALL = re.compile(r'(GET_SIZE|_Size|GET_LENGTH|GetLength|_GET_LEN)$')
+
+
+class _SliceSym(LinSym):
+    """LinSym + unknown values named after the variable they are stored in, non-negative sizes, out-parameters, tagged outcomes"""
+
+    def __init__(self, *a, **k):
+        super().__init__(*a, **k)
+        self.nonneg = set()
+
+    def unknown_for(self, name, st, nonneg=False):
+        n = st['aux'].get('cnt:' + name, 0)
+        st['aux']['cnt:' + name] = n + 1
+        sym = '%s@%d' % (name, n)
+        if nonneg and sym not in self.nonneg:
+            self.nonneg.add(sym)
+            self.base.append(Lf.sym(sym))
+        return Lf.sym(sym)
+
+    def lin(self, e, st):
+        from . import pC15 as X
+        e1 = X.strip_wrappers(e)
+        if e1[0] == 'id' and st['env'].get(e1[1]) is None and e1[1] not in self.fixed and re.fullmatch(r'[a-z_]\w*', e1[1]) and e1[1] not in ('NULL',):
+            # a local that is filled through an out-parameter or declared without initialiser: one symbol per variable
+            st['env'][e1[1]] = Lf.sym(e1[1] + '@in')
+        return super().lin(e, st)
+
+    def assign(self, name, rhs, st):
+        from . import pC15 as X
+        r = X.strip_wrappers(rhs)
+        tag = self.tagged(r, st)
+        if tag is not None:
+            st['env'][name] = tag
+            return
+        v = super().lin(rhs, st)
+        if v is not None:
+            st['env'][name] = v
+            return
+        size_like = (r[0] == 'call' and r[1][0] == 'id' and _SIZE_CALL.search(r[1][1])) or (r[0] == 'mem' and r[3] in ('len', 'length', 'size'))
+        st['env'][name] = self.unknown_for(name, st, nonneg=bool(size_like))
+
+    def tagged(self, r, st):
+        """`!memcmp(p + off, q, n)` -> ('match', off, n);  None otherwise"""
+        from . import pC15 as X
+        neg = False
+        while r[0] == 'un' and r[1] == '!':
+            neg = not neg
+            r = X.strip_wrappers(r[2])
+        if r[0] == 'call' and r[1][0] == 'id' and r[1][1] == 'memcmp' and len(r[2]) == 3 and neg:
+            p = self.lin(r[2][0], st)
+            n = self.lin(r[2][2], st)
+            if p is None or n is None:
+                raise LsGiveUp('memcmp with non-linear arguments')
+            ptrs = [s for s in p.k if s.split('@')[0].endswith('ptr') or s.split('@')[0].endswith('buf') or s.split('@')[0].endswith('data')]
+            base = [s for s, c in p.k.items() if c == 1 and s not in st['aux'].get('index_syms', ())]
+            # the base pointer: the one symbol of the address that is not an integer index quantity (it never appears in a comparison)
+            cand = [s for s in p.k if p.k[s] == 1 and s not in self.compared]
+            if len(cand) != 1:
+                raise LsGiveUp('cannot tell the base pointer of memcmp(%s, ...)' % X.c_text(r[2][0]))
+            off = p - Lf.sym(cand[0])
+            return ('match', off, n)
+        return None
+
+    compared = frozenset()
+
+    def branches(self, cond, st):
+        # calls inside a condition fill their out-parameters before the result is tested:  if (PyBytes_AsStringAndSize(o, &p, &n) == -1) return -1;
+        from . import pC15 as X
+        calls = []
+
+        def rec(e):
+            if not isinstance(e, tuple):
+                return
+            if e[0] == 'call' and any(X.strip_wrappers(a)[0] == 'un' and X.strip_wrappers(a)[1] == '&' for a in e[2]):
+                calls.append(e)
+            for x in e[1:]:
+                if isinstance(x, tuple):
+                    rec(x)
+                elif isinstance(x, list):
+                    for y in x:
+                        rec(y)
+        rec(cond)
+        if calls:
+            st = self.copy(st)
+            for c in calls:
+                self.effect(c, st)
+        return super().branches(cond, st)
+
+    def effect(self, e0, st):
+        from . import pC15 as X
+        if e0[0] == 'call':
+            name = e0[1][1] if e0[1][0] == 'id' else None
+            outs = [X.strip_wrappers(a) for a in e0[2]]
+            outs = [a[2] for a in outs if a[0] == 'un' and a[1] == '&']
+            outs = [X.strip_wrappers(a) for a in outs]
+            for i, a in enumerate(outs):
+                if a[0] == 'id':
+                    is_size = name is not None and ('AndSize' in name) and i == len(outs) - 1
+                    st['env'][a[1]] = self.unknown_for(a[1], st, nonneg=is_size)
+            return
+        return super().effect(e0, st)
+
+
+def _compared_symbols(tree, inputs):
+    """names of the variables that take part in an integer comparison somewhere in the function (index quantities, not pointers)"""
+    from . import pC15 as X
+    out = set()
+
+    def rec_e(e):
+        if not isinstance(e, tuple):
+            return
+        if e[0] == 'bin' and e[1] in ('<', '<=', '>', '>='):
+            out.update(X.c_ids(e))
+        for x in e[1:]:
+            if isinstance(x, tuple):
+                rec_e(x)
+            elif isinstance(x, list):
+                for y in x:
+                    rec_e(y)
+    for s in X.c_walk_stmts(tree):
+        if s[0] == 'if':
+            rec_e(s[1])
+        elif s[0] in ('expr', 'return') and s[1] is not None:
+            rec_e(s[1])
+        elif s[0] == 'decl':
+            for _, init, _ in s[1]:
+                if init is not None:
+                    rec_e(init)
+    return out
+
+
+def _ref_paths(text, inputs, base, fixed, outcome_names):
+    from . import pC15 as X
+
+    def ret(sym, e, st):
+        e = X.strip_wrappers(e)
+        if e[0] == 'call' and e[1][0] == 'id' and e[1][1] in outcome_names:
+            return (e[1][1],) + tuple(sym.lin(a, st) for a in e[2])
+        raise LsGiveUp('reference return')
+    s = LinSym(inputs, base, hooks={'return': ret}, fixed=fixed)
+    return s.run(X.parse_c_function_body(text))
+
+
+def tailmatch_problems(fname, typed, body_text):
+    """-> (number of path pairs compared, [message])"""
+    from . import pC15 as X
+    from . import sC02
+    ints = [n for t, n in typed if t.strip() == 'Py_ssize_t']
+    flags = [n for t, n in typed if t.strip() == 'int']
+    if len(ints) != 2 or len(flags) != 1:
+        raise LsGiveUp('%s: expected (.., Py_ssize_t start, Py_ssize_t end, int direction)' % fname)
+    pstart, pend, pdir = ints[0], ints[1], flags[0]
+    problems, pairs = [], 0
+    seen_sigs = set()
+    for cfg, text in sC02._pp_texts(body_text):
+        tree = X.parse_c_function_body(text)
+        cmpd = _compared_symbols(tree, None)
+        for direction in (1, -1):
+            def ret(sym, e, st):
+                if e is None:
+                    return ('void',)
+                e1 = X.strip_wrappers(e)
+                if e1[0] == 'id' and isinstance(st['env'].get(e1[1]), tuple):
+                    return st['env'][e1[1]]
+                v = sym.lin(e1, st)
+                if v is not None and v.is_const():
+                    return ('const', v.c)
+                return ('other', X.c_text(e1))
+            sym = _SliceSym({pstart: Lf.sym('start'), pend: Lf.sym('end')}, [], hooks={'return': ret}, fixed={pdir: direction})
+            sym.compared = frozenset(s + sfx for s in cmpd for sfx in ('@0', '@1', '@in', '')) | {'start', 'end'}
+            cand = sym.run(tree)
+            # the preprocessor variants differ in how the buffers are obtained, not in the index arithmetic: identical path sets are compared once.
+            # Constraints over pointer symbols do not restrict the indices and are dropped before the comparison.
+            def index_only(pc):
+                return [c for c in pc if all(('@' not in s_) or s_ in sym.nonneg for s_ in c.k)]
+            cand = [(index_only(pc), o, ev, at, aux) for pc, o, ev, at, aux in cand]
+            uniq = {}
+            for pc, o, ev, at, aux in cand:
+                uniq.setdefault((tuple(sorted(c.key() for c in pc)), repr(o)), (pc, o, ev, at, aux))
+            cand = list(uniq.values())
+            sig = (direction, frozenset(uniq))
+            if sig in seen_sigs:
+                continue
+            seen_sigs.add(sig)
+            matches = [(pc, o) for pc, o, ev, at, aux in cand if o[0] == 'match']
+            if not matches:
+                problems.append('%s never compares the bytes for direction %+d [%s]' % (fname, direction, cfg))
+                continue
+            slen_syms = {tuple(sorted(o[2].k)) for _, o in matches}
+            if len(slen_syms) != 1 or len(next(iter(slen_syms))) != 1:
+                raise LsGiveUp('%s: the compared length is not one size symbol' % fname)
+            slen = next(iter(slen_syms))[0]
+            others = sorted(sym.nonneg - {slen})
+            if len(others) != 1:
+                raise LsGiveUp('%s: cannot identify the length of the searched object among %s' % (fname, sorted(sym.nonneg)))
+            length = others[0]
+            base = [Lf.sym(slen), Lf.sym(length)]
+            ref = _ref_paths(REF_TAILMATCH, {'start': Lf.sym('start'), 'end': Lf.sym('end'), 'len': Lf.sym(length), 'slen': Lf.sym(slen)}, base,
+                             {'direction': direction}, ('MATCH', 'NOMATCH'))
+            names = {'start': pstart, 'end': pend, length: 'len(self)', slen: 'len(sub)'}
+            for pc, o, ev, at, aux in cand:
+                if len(problems) >= 6:
+                    break
+                if o[0] == 'const' and o[1] < 0:
+                    continue                # error return of the buffer acquisition
+                if o[0] not in ('match', 'const'):
+                    raise LsGiveUp('%s returns %r' % (fname, o))
+                if o[0] == 'match':
+                    off, n = o[1], o[2]
+                    for what, form in (('starts before the buffer', off), ('ends behind the buffer', Lf.sym(length) - off - n)):
+                        if not implied(base, pc, form):
+                            w = find_witness(base + pc + [-form - Lf(1)], {s for c in base + pc + [form] for s in c.k})
+                            if w is not None:
+                                problems.append('%s (direction %+d): memcmp(self + %r, sub, %r) %s for %s [%s]' % (
+                                    fname, direction, off, n, what, ', '.join('%s=%d' % (names.get(k, k), v) for k, v in sorted(w.items())), cfg))
+                for rpc, ro, _, _, _ in ref:
+                    joint = pc + rpc
+                    if not fm_feasible(base + joint):
+                        continue
+                    pairs += 1
+                    cm = o[0] == 'match'
+                    rm = ro[0] == 'MATCH'
+                    bad = None
+                    if cm != rm:
+                        # a comparison of zero bytes at a valid offset is "match"; the reference says so explicitly
+                        bad = 'the helper %s where bytes.%s %s' % ('compares the bytes' if cm else 'reports no match', 'endswith' if direction > 0 else 'startswith',
+                                                                    'compares the bytes' if rm else 'reports no match')
+                        extra = []
+                    elif cm:
+                        if not equal_under(base, joint + [Lf.sym(slen) - Lf(1)], o[1], ro[1]):
+                            bad = 'the helper compares at offset %r, the reference at offset %r' % (o[1], ro[1])
+                            extra = [Lf.sym(slen) - Lf(1)]
+                            # need a point where the offsets really differ
+                            w = find_witness(base + joint + extra + [o[1] - ro[1] - Lf(1)], {s for c in base + joint for s in c.k}) or \
+                                find_witness(base + joint + extra + [ro[1] - o[1] - Lf(1)], {s for c in base + joint for s in c.k})
+                            if w is None:
+                                bad = None
+                            else:
+                                problems.append('%s (direction %+d): %s for %s [%s]' % (fname, direction, bad, ', '.join('%s=%d' % (names.get(k, k), v) for k, v in sorted(w.items())), cfg))
+                                bad = None
+                    if bad:
+                        w = find_witness(base + joint, {s for c in base + joint for s in c.k})
+                        if w is not None:
+                            problems.append('%s (direction %+d): %s for %s [%s]' % (fname, direction, bad, ', '.join('%s=%d' % (names.get(k, k), v) for k, v in sorted(w.items())), cfg))
+    seen, out = set(), []
+    for p in problems:
+        k = re.sub(r' for .*', '', p)
+        if k not in seen:
+            seen.add(k)
+            out.append(p)
+    return pairs, out
+
+
+def substring_problems(fname, typed, body_text):
+    from . import pC15 as X
+    from . import sC02
+    ints = [n for t, n in typed if t.strip() == 'Py_ssize_t']
+    if len(ints) != 2:
+        raise LsGiveUp('%s: expected (text, Py_ssize_t start, Py_ssize_t stop)' % fname)
+    pstart, pstop = ints
+    obj = [n for t, n in typed if 'PyObject' in t]
+    problems, pairs = [], 0
+    for cfg, text in sC02._pp_texts(body_text):
+        tree = X.parse_c_function_body(text)
+
+        def ret(sym, e, st):
+            e1 = X.strip_wrappers(e)
+            if e1[0] == 'id' and e1[1] == 'NULL':
+                return ('error',)
+            if e1[0] == 'call' and e1[1][0] == 'id':
+                nm, args = e1[1][1], e1[2]
+                if nm in ('__Pyx_NewRef', 'Py_NewRef') and len(args) == 1:
+                    a = X.strip_wrappers(args[0])
+                    if a[0] == 'id' and a[1] in obj:
+                        return ('whole',)
+                    return ('empty',)
+                if nm == 'PyUnicode_FromKindAndData' and len(args) == 3:
+                    p = X.strip_wrappers(args[1])
+                    n = sym.lin(args[2], st)
+                    off = None
+                    if p[0] == 'bin' and p[1] == '+':
+                        m = X.strip_wrappers(p[3])
+                        if m[0] == 'bin' and m[1] == '*':
+                            off = sym.lin(m[2], st)
+                            if off is None:
+                                off = sym.lin(m[3], st)
+                    if off is None or n is None:
+                        raise LsGiveUp('PyUnicode_FromKindAndData(%s)' % X.c_text(e1))
+                    return ('slice', off, n)
+                if nm == 'PyUnicode_Substring' and len(args) == 3:
+                    a, b = sym.lin(args[1], st), sym.lin(args[2], st)
+                    if a is None or b is None:
+                        raise LsGiveUp('PyUnicode_Substring arguments')
+                    return ('slice', a, b - a)
+            return ('other', X.c_text(e1))
+        sym = _SliceSym({pstart: Lf.sym('start'), pstop: Lf.sym('stop')}, [], hooks={'return': ret})
+        cand = sym.run(tree)
+        if len(sym.nonneg) != 1:
+            raise LsGiveUp('%s: the text length is not one size symbol (%s)' % (fname, sorted(sym.nonneg)))
+        length = next(iter(sym.nonneg))
+        L = Lf.sym(length)
+        base = [L]
+        ref = _ref_paths(REF_SUBSTRING, {'start': Lf.sym('start'), 'stop': Lf.sym('stop'), 'len': L}, base, {}, ('EMPTY', 'SLICE'))
+        names = {'start': pstart, 'stop': pstop, length: 'len(text)'}
+
+        def norm(o):
+            if o[0] == 'whole':
+                return (Lf(0), L)
+            if o[0] in ('empty', 'EMPTY'):
+                return (Lf(0), Lf(0))
+            return (o[1], o[2])
+        for pc, o, ev, at, aux in cand:
+            if len(problems) >= 6:
+                break
+            if o[0] == 'error':
+                continue
+            if o[0] == 'other':
+                raise LsGiveUp('%s returns %s' % (fname, o[1]))
+            off, n = norm(o)
+            if o[0] == 'slice':
+                for what, form in (('a negative length', n), ('an offset before the text', off), ('a range that ends behind the text', L - off - n)):
+                    if not implied(base, pc, form):
+                        w = find_witness(base + pc + [-form - Lf(1)], {s for c in base + pc + [form] for s in c.k})
+                        if w is not None:
+                            problems.append('%s builds the result from data + %r with length %r: %s for %s [%s]' % (
+                                fname, off, n, what, ', '.join('%s=%d' % (names.get(k, k), v) for k, v in sorted(w.items())), cfg))
+            for rpc, ro, _, _, _ in ref:
+                joint = pc + rpc
+                if not fm_feasible(base + joint):
+                    continue
+                pairs += 1
+                roff, rn = norm(ro)
+                if not equal_under(base, joint, n, rn):
+                    w = find_witness(base + joint + [n - rn - Lf(1)], {s for c in base + joint for s in c.k}) or \
+                        find_witness(base + joint + [rn - n - Lf(1)], {s for c in base + joint for s in c.k})
+                    if w is not None:
+                        problems.append('%s returns %r characters where text[start:stop] has %r for %s [%s]' % (
+                            fname, n, rn, ', '.join('%s=%d' % (names.get(k, k), v) for k, v in sorted(w.items())), cfg))
+                elif not equal_under(base, joint + [rn - Lf(1)], off, roff):
+                    w = find_witness(base + joint + [rn - Lf(1), off - roff - Lf(1)], {s for c in base + joint for s in c.k}) or \
+                        find_witness(base + joint + [rn - Lf(1), roff - off - Lf(1)], {s for c in base + joint for s in c.k})
+                    if w is not None:
+                        problems.append('%s starts the result at %r where text[start:stop] starts at %r for %s [%s]' % (
+                            fname, off, roff, ', '.join('%s=%d' % (names.get(k, k), v) for k, v in sorted(w.items())), cfg))
+    seen, out = set(), []
+    for p in problems:
+        k = re.sub(r' for .*', '', p)
+        if k not in seen:
+            seen.add(k)
+            out.append(p)
+    return pairs, out
+
+
+def rule_slice(ctx, floor=2):
+    from . import pC15 as X
+    _WITNESS_BUDGET[0] = 0
+    r = Rule('C13-SLICE', 'start / end handling of __Pyx_PyBytes_SingleTailmatch and __Pyx_PyUnicode_Substring, run symbolically on linear forms: on every path the outcome '
+             'equals that of CPython\'s tailmatch() / slicing for all index values, and every memory access stays inside the object', floor)
+    for cname, fn in (('__Pyx_PyBytes_SingleTailmatch', tailmatch_problems), ('__Pyx_PyUnicode_Substring', substring_problems)):
+        fs = [f for f in X.resolve_c(ctx.cat, cname, ('func',)) if f.body]
+        if not fs:
+            raise AnalysisError('%s not found in the utility catalogue' % cname)
+        f = fs[0]
+        try:
+            pairs, probs = fn(cname, f.typed_params(), f.expanded_body())
+        except (LsGiveUp, AnalysisError) as e:
+            raise AnalysisError('C13-SLICE: %s is outside the modelled C subset: %s' % (cname, e))
+        r.inst(cname, sample='%s: %d jointly feasible path pairs compared with the reference' % (cname, pairs), nontrivial=pairs > 0)
+        for i, m in enumerate(probs[:4]):
+            r.violate('%s:%d' % (cname, i), f.file, f.line, m)
+    typed = [('PyObject *', 'text'), ('Py_ssize_t', 'start'), ('Py_ssize_t', 'stop')]
+    pc = '{ Py_ssize_t length; length = __Pyx_PyUnicode_GET_LENGTH(text); if (start < 0) { start += length; if (start < 0) start = 0; } if (stop < 0) stop += length; ' \
+         'if (stop <= start) return __Pyx_NewRef(EMPTY(unicode)); return PyUnicode_FromKindAndData(PyUnicode_KIND(text), PyUnicode_1BYTE_DATA(text) + start*PyUnicode_KIND(text), stop-start); }'
+    _, probs = substring_problems('pc', typed, pc)
+    r.positive_control(bool(probs), 'a substring helper without the upper clamp of stop is reported')
+    return r
+
+
+# ------------------------------------------------------------------------------------------------------------ C13-LISTPOP
+# list.pop() / list.pop(i) fast paths that operate on the PyListObject directly (Py_SET_SIZE): symbolic run over the list size n, half the allocation
+# h = allocated >> 1 (h >= 0) and the index.  Decided on every path that shrinks the list:
+#   NONEMPTY  the size is decremented only where the path condition implies n >= 1 (an empty list must reach list.pop, which raises IndexError)
+#   ITEM      the item handed back is element n-1 (pop()) resp. element i / n+i for i >= 0 / i < 0 (pop(i)), inside [0, n)
+#   SHIFT     pop(i) moves exactly the n-1-k elements behind position k one place down (memmove(&item[k], &item[k+1], (n-1-k) * sizeof))
+#   SIZE      the list ends up with n-1 elements
+_LIST_SIZE = ('PyList_GET_SIZE', 'Py_SIZE', '__Pyx_PyList_GET_SIZE')
+_LIST_ITEM = ('PyList_GET_ITEM', '__Pyx_PyList_GET_ITEM')
+
+
+def listpop_problems(fname, typed, body_text):
+    from . import pC15 as X
+    from . import sC02
+    ix_params = [n for t, n in typed if t.strip() == 'Py_ssize_t']
+    problems, shrinking = [], 0
+    for cfg, text in sC02._pp_texts(body_text):
+        tree = X.parse_c_function_body(text)
+        n0, half = Lf.sym('n'), Lf.sym('half_alloc')
+        base = [n0, half]
+
+        def size(st):
+            return st['aux'].get('N', n0)
+
+        def call_value(sym, e, st):
+            nm = e[1][1] if e[1][0] == 'id' else None
+            if nm in _LIST_SIZE and len(e[2]) == 1:
+                return size(st)
+            return None
+
+        def shift_value(sym, e, st):
+            l = X.strip_wrappers(e[2])
+            if l[0] == 'mem' and l[3] == 'allocated' and X.strip_wrappers(e[3]) == ('num', 1):
+                return half
+            return None
+
+        def item_index(e, sym, st):
+            e = X.strip_wrappers(e)
+            if e[0] == 'call' and e[1][0] == 'id' and e[1][1] in _LIST_ITEM and len(e[2]) == 2:
+                return sym.lin(e[2][1], st)
+            return None
+
+        def assign(sym, name, rhs, v, st):
+            i = item_index(rhs, sym, st)
+            if i is not None:
+                return ('item', i)
+            return None
+
+        def effect(sym, e0, st):
+            if e0[0] != 'call' or e0[1][0] != 'id':
+                return
+            nm = e0[1][1]
+            if nm == 'Py_SET_SIZE' and len(e0[2]) == 2:
+                new = sym.lin(e0[2][1], st)
+                if new is None:
+                    raise LsGiveUp('Py_SET_SIZE with a non-linear size')
+                st['events'].append(('setsize', size(st), new, list(st['pc'])))
+                st['aux']['N'] = new
+            elif nm == 'memmove' and len(e0[2]) == 3:
+                def addr(a):
+                    a = X.strip_wrappers(a)
+                    if a[0] == 'un' and a[1] == '&':
+                        return item_index(a[2], sym, st)
+                    return None
+                d, s_ = addr(e0[2][0]), addr(e0[2][1])
+                c = X.strip_wrappers(e0[2][2])
+                cnt = None
+                if c[0] == 'bin' and c[1] == '*':
+                    cnt = sym.lin(c[2], st) if X.strip_wrappers(c[3])[0] == 'sizeof' else (sym.lin(c[3], st) if X.strip_wrappers(c[2])[0] == 'sizeof' else None)
+                st['events'].append(('memmove', d, s_, cnt))
+
+        def condition(sym, c, st):
+            if c[0] == 'call' and c[1][0] == 'id' and c[1][1] == '__Pyx_is_valid_index' and len(c[2]) == 2:
+                i, n = sym.lin(c[2][0], st), sym.lin(c[2][1], st)
+                if i is None or n is None:
+                    return None
+                out = []
+                for truth, alts in ((True, [[i, n - i - Lf(1)]]), (False, [[-i - Lf(1)], [i - n]])):
+                    for alt in alts:
+                        s2 = sym.copy(st)
+                        s2['pc'] = s2['pc'] + alt
+                        if fm_feasible(sym.base + s2['pc']):
+                            out.append((truth, s2))
+                return out
+            return None
+
+        def ret(sym, e, st):
+            if e is None:
+                return ('void',)
+            e1 = X.strip_wrappers(e)
+            if e1[0] == 'id' and isinstance(st['env'].get(e1[1]), tuple):
+                return st['env'][e1[1]] + (size(st),)
+            i = item_index(e1, sym, st)
+            if i is not None:
+                return ('item', i, size(st))
+            return ('generic', X.c_text(e1))
+        inputs = {p: Lf.sym(p) for p in ix_params}
+        sym = LinSym(inputs, base, hooks={'call_value': call_value, 'shift_value': shift_value, 'assign': assign, 'effect': effect, 'condition': condition, 'return': ret})
+        res = sym.run(tree)
+        for pc, o, ev, at, aux in res:
+            sets = [e for e in ev if e[0] == 'setsize']
+            if not sets:
+                if o[0] == 'item':
+                    problems.append('%s returns a list item without shrinking the list [%s]' % (fname, cfg))
+                continue
+            shrinking += 1
+            for _, before, new, pc_at in sets:
+                if not equal_under(base, pc_at, new, before - Lf(1)):
+                    problems.append('%s sets the list size to %r where it was %r (pop removes exactly one element) [%s]' % (fname, new, before, cfg))
+                if not implied(base, pc_at, before - Lf(1)):
+                    w = find_witness(base + pc_at + [-before], {s_ for c in base + pc_at for s_ in c.k} | {'n'})
+                    problems.append('%s decrements the list size on a path where the list may be empty%s: the size becomes -1 and memory before the item array is '
+                                    'touched instead of raising IndexError [%s]' % (fname, (' (e.g. %s)' % ', '.join('%s=%d' % kv for kv in sorted(w.items()))) if w else '', cfg))
+            if o[0] != 'item':
+                problems.append('%s shrinks the list but returns %s [%s]' % (fname, o[1] if len(o) > 1 else o[0], cfg))
+                continue
+            i = o[1]
+            if not (implied(base, pc, i) and implied(base, pc, n0 - i - Lf(1))):
+                problems.append('%s returns element %r, which is not inside [0, n) on this path [%s]' % (fname, i, cfg))
+            if not ix_params:
+                if not equal_under(base, pc, i, n0 - Lf(1)):
+                    problems.append('%s returns element %r of a list of n elements; pop() returns the last one (n-1) [%s]' % (fname, i, cfg))
+            else:
+                ixs = Lf.sym(ix_params[-1])
+                ok = True
+                for sign_c, want in (([ixs], ixs), ([-ixs - Lf(1)], ixs + n0)):
+                    if fm_feasible(base + pc + sign_c) and not equal_under(base, pc + sign_c, i, want):
+                        ok = False
+                if not ok:
+                    problems.append('%s returns element %r for the index %s: pop(i) returns element i (i >= 0) or n+i (i < 0) [%s]' % (fname, i, ix_params[-1], cfg))
+                mm = [e for e in ev if e[0] == 'memmove']
+                if len(mm) != 1:
+                    problems.append('%s removes an inner element with %d memmove calls (one expected) [%s]' % (fname, len(mm), cfg))
+                else:
+                    _, d, s_, cnt = mm[0]
+                    if d is None or s_ is None or cnt is None:
+                        raise LsGiveUp('%s: memmove arguments are not item addresses / a linear count' % fname)
+                    if not (equal_under(base, pc, d, i) and equal_under(base, pc, s_, i + Lf(1)) and equal_under(base, pc, cnt, n0 - Lf(1) - i)):
+                        problems.append('%s closes the gap with memmove(&item[%r], &item[%r], %r elements); removing element k of n needs memmove(&item[k], &item[k+1], n-1-k) '
+                                        '[%s]' % (fname, d, s_, cnt, cfg))
+    seen, out = set(), []
+    for p_ in problems:
+        k = re.sub(r' \[.*\]$', '', p_)
+        if k not in seen:
+            seen.add(k)
+            out.append(p_)
+    return shrinking, out
+
+
+def rule_listpop(ctx, floor=2):
+    from . import pC15 as X
+    r = Rule('C13-LISTPOP', 'list.pop() / list.pop(i) fast paths on the PyListObject (symbolic run over size, allocation and index): the size is only decremented for a '
+             'non-empty list, the element returned is the one pop returns, the tail is moved down by exactly one place, the list ends with n-1 elements', floor)
+    _WITNESS_BUDGET[0] = 0
+    found = 0
+    for cname, decls in sorted(ctx.cat.decls.items()):
+        for d in decls:
+            if d.kind != 'func' or d.file != 'Optimize.c' or '{{' in cname or not d.body:
+                continue
+            shrinks = re.search(r'Py_SET_SIZE\s*\([^;]*-\s*1\s*\)', d.body)
+            removes = 'memmove' in d.body and re.search(r'\bPyList_GET_ITEM\b', d.body)
+            if not (shrinks or removes):
+                continue            # append helpers grow the list; everything else does not touch the item array
+            f = X.resolve_c(ctx.cat, cname, ('func',))[0]
+            body = f.expanded_body()
+            found += 1
+            try:
+                paths, probs = listpop_problems(cname, f.typed_params(), body)
+            except (LsGiveUp, AnalysisError) as e:
+                raise AnalysisError('C13-LISTPOP: %s is outside the modelled C subset: %s' % (cname, e))
+            r.inst(cname, sample='%s: %d shrinking path(s)' % (cname, paths), nontrivial=paths > 0)
+            for i, m in enumerate(probs[:4]):
+                r.violate('%s:%d' % (cname, i), f.file, f.line, m)
+            break
+    if not found:
+        raise AnalysisError('no list-shrinking helper (Py_SET_SIZE(L, size - 1)) found in Optimize.c')
+    pc = '{ if (likely(PyList_GET_SIZE(L) >= (((PyListObject*)L)->allocated >> 1))) { Py_SET_SIZE(L, Py_SIZE(L) - 1); return PyList_GET_ITEM(L, PyList_GET_SIZE(L)); } return CALL_UNBOUND_METHOD(PyList_Type, "pop", L); }'
+    _, probs = listpop_problems('pc', [('PyObject *', 'L')], pc)
+    r.positive_control(any('may be empty' in p_ for p_ in probs), 'a fast path admitting size >= allocated/2 (an empty list with no allocation) is reported')
+    return r
+
+
+# ------------------------------------------------------------------------------------------------------------ C13-TRISTATE
+# C-API predicates with three results (1 / 0 / -1 = error with an exception set): a helper that goes on to raise its OWN exception (KeyError for a
+# missing key ...) must do so only on paths where the result cannot be -1 - otherwise the pending exception (TypeError: unhashable type, an exception
+# from __eq__ / __hash__) is replaced.  Symbolic run: every variable assigned from such a predicate (or from a catalogue helper that returns one, or an
+# int parameter that receives one at every call site) is a symbol in [-1, 1]; at every PyErr_Set* the path condition must exclude -1 for the latest
+# tri-state value, unless PyErr_Clear() was called after it was obtained.
+TRISTATE_API = {'PySet_Discard', 'PySet_Contains', 'PyDict_Contains', 'PySequence_Contains', 'PyObject_IsTrue', 'PyObject_RichCompareBool', 'PyObject_IsInstance',
+                'PyObject_IsSubclass', 'PyObject_Not', 'PyUnicode_Contains', 'PyObject_HasAttrWithError', 'PyMapping_HasKeyWithError'}
+TRISTATE_FILES = ('Optimize.c', 'ObjectHandling.c', 'Builtins.c')
+_RAISERS = ('PyErr_SetObject', 'PyErr_SetString', 'PyErr_Format', 'PyErr_SetNone')
+
+
+def tristate_functions(ctx):
+    """catalogue functions (of the container helper files) that return the tri-state result of a C-API predicate, and int parameters that only ever receive one
+    -> (set of function names, {(function, parameter name)})"""
+    from . import pC15 as X
+    funcs = {}
+    for cname, decls in ctx.cat.decls.items():
+        for d in decls:
+            if d.kind == 'func' and d.file in TRISTATE_FILES and d.body and '{{' not in cname and '{{' not in d.body and cname not in funcs:
+                fs = X.resolve_c(ctx.cat, cname, ('func',))
+                if fs:
+                    funcs[cname] = fs[0]
+    derived = set()
+    changed = True
+    while changed:
+        changed = False
+        for name, f in funcs.items():
+            if name in derived or not re.match(r'\s*(static\s+)?(CYTHON_INLINE\s+)?int\b', (f.decl.ret or '') + ' ') and 'int' not in (f.decl.ret or ''):
+                continue
+            body = strip_c_comments(f.expanded_body() or '')
+            tri_vars = set(re.findall(r'\b([A-Za-z_]\w*)\s*=\s*(?:%s)\s*\(' % '|'.join(sorted(TRISTATE_API | derived)), body))
+            rets = re.findall(r'\breturn\s+([^;]+);', body)
+            if tri_vars and rets and all(r.strip() in tri_vars or re.fullmatch(r'-?[01]', r.strip()) for r in rets) and any(r.strip() in tri_vars for r in rets):
+                derived.add(name)
+                changed = True
+    params = set()
+    for name, f in funcs.items():
+        pn = f.typed_params()
+        for i, (t, p) in enumerate(pn):
+            if t.strip() != 'int' or not p:
+                continue
+            sites = []
+            for caller, g in funcs.items():
+                body = strip_c_comments(g.expanded_body() or '')
+                for callee, args, off in X.c_calls_in_text(body):
+                    if callee == name and i < len(args):
+                        a = args[i].strip()
+                        src = re.search(r'\b%s\s*=\s*(%s)\s*\(' % (re.escape(a), '|'.join(sorted(TRISTATE_API | derived))), body) if re.fullmatch(r'[A-Za-z_]\w*', a) else None
+                        sites.append(bool(src))
+            if sites and all(sites):
+                params.add((name, p))
+    return funcs, derived, params
+
+
+def tristate_problems(fname, f, derived, tri_params):
+    from . import pC15 as X
+    from . import sC02
+    problems, raises = [], 0
+    sources = TRISTATE_API | derived
+    for cfg, text in sC02._pp_texts(f.expanded_body()):
+        tree = X.parse_c_function_body(text)
+        base = []
+
+        def tri(sym, st, name):
+            n = st['aux'].get('tri#', 0)
+            st['aux']['tri#'] = n + 1
+            v = Lf.sym('%s$%d' % (name, n))
+            st['pc'] = st['pc'] + [v + Lf(1), Lf(1) - v]
+            st['aux']['pending'] = (v, name)
+            return v
+
+        def assign(sym, name, rhs, v, st):
+            r = X.strip_wrappers(rhs)
+            if r[0] == 'call' and r[1][0] == 'id' and r[1][1] in sources:
+                return tri(sym, st, name)
+            return None
+
+        def effect(sym, e0, st):
+            if e0[0] == 'call' and e0[1][0] == 'id':
+                nm = e0[1][1]
+                if nm == 'PyErr_Clear':
+                    st['aux']['pending'] = None
+                elif nm in _RAISERS:
+                    st['events'].append(('raise', X.c_text(e0[2][0]) if e0[2] else '?', st['aux'].get('pending'), list(st['pc'])))
+        inputs = {}
+        sym = LinSym(inputs, base, hooks={'assign': assign, 'effect': effect})
+        st0 = None
+        # tri-state parameters start as pending results
+        pre = [p for (fn_, p) in tri_params if fn_ == fname]
+        orig_run = sym.run
+
+        def run_with_params(tree):
+            st = {'env': {}, 'pc': [], 'atoms': {}, 'events': [], 'aux': {}}
+            for p in pre:
+                v = Lf.sym(p + '$in')
+                st['env'][p] = v
+                st['pc'] += [v + Lf(1), Lf(1) - v]
+                st['aux']['pending'] = (v, p)
+            top = tree[1]
+            for kind, payload, s2 in sym.exec_list(top, st):
+                if kind == 'goto':
+                    raise LsGiveUp('goto')
+                sym.finish(('fall',), s2)
+            return sym.results
+        res = run_with_params(tree)
+        for pc, o, ev, at, aux in res:
+            for e in ev:
+                if e[0] != 'raise':
+                    continue
+                raises += 1
+                _, exc, pending, pc_at = e
+                if pending is None:
+                    continue
+                v, name = pending
+                if fm_feasible(base + pc_at + [-v - Lf(1)]):
+                    problems.append('%s sets %s on a path where the tri-state result %r may be -1 (an exception is already set by the failed lookup / comparison): the '
+                                    'pending exception - TypeError for an unhashable key, an error raised by __eq__ - is replaced [%s]' % (fname, exc, name, cfg))
+    seen, out = set(), []
+    for p_ in problems:
+        k = re.sub(r' \[.*\]$', '', p_)
+        if k not in seen:
+            seen.add(k)
+            out.append(p_)
+    return raises, out
+
+
+def rule_tristate(ctx, floor=1):
+    r = Rule('C13-TRISTATE', 'helpers built on three-valued C-API predicates (PySet_Discard, PyDict_Contains, ...: 1 / 0 / -1 with an exception set): a new exception is '
+             'only raised on paths where the latest result cannot be -1 (or after PyErr_Clear())', floor)
+    funcs, derived, params = tristate_functions(ctx)
+    r.info('helpers returning a tri-state result: %s; tri-state parameters: %s' % (sorted(derived), sorted(params)))
+    n = 0
+    for name, f in sorted(funcs.items()):
+        body = strip_c_comments(f.expanded_body() or '')
+        uses = re.search(r'\b(%s)\s*\(' % '|'.join(sorted(TRISTATE_API | derived)), body) or any(fn_ == name for fn_, _ in params)
+        if not uses or not re.search(r'\b(%s)\s*\(' % '|'.join(_RAISERS), body):
+            continue
+        try:
+            raises, probs = tristate_problems(name, f, derived, params)
+        except (LsGiveUp, AnalysisError) as e:
+            r.info('%s: outside the modelled C subset (%s)' % (name, str(e)[:60]))
+            continue
+        n += 1
+        r.inst(name, sample='%s: %d raise site(s) on the explored paths' % (name, raises), nontrivial=raises > 0)
+        for i, m in enumerate(probs[:3]):
+            r.violate('%s:%d' % (name, i), f.file, f.line, m)
+    if not n:
+        raise AnalysisError('no helper that raises after a tri-state predicate found (py_set_remove moved?)')
+
+    class _F:
+        def __init__(self, body):
+            self._b = body
+
+        def expanded_body(self):
+            return self._b
+    pc = _F('{ if (unlikely(found < 0)) { found = __Pyx_PySet_DiscardUnhashable(set, key); } if (likely(found <= 0)) { PyErr_SetObject(PyExc_KeyError, key); return -1; } return found; }')
+    _, probs = tristate_problems('pc', pc, {'__Pyx_PySet_DiscardUnhashable'}, {('pc', 'found')})
+    r.positive_control(bool(probs), 'KeyError raised for found <= 0 (including the error result -1) is reported')
+    return r
